@@ -69,6 +69,13 @@ Inductive case :=
       destinations of the UDP datagrams, the distinct destinations of the TCP
       connections, and whether the exchange ended with the TCP answer *)
 | CTrunc (a : uin) (obs : option (list (dest * N) * list (dest * N) * bool))
+  (** upstreams created one after another from ONE shared Opt.TLSConfig whose
+      ServerName is [preset] (usually empty), then used in that order: per
+      upstream the address, whether a proxy is set, the name its server's
+      certificate is issued for and [None] = refused / [Some (SNI seen,
+      exchange succeeded)]; and the shared config afterwards: its ServerName
+      and the length of its NextProtos *)
+| CSeq (preset : str) (ups : list (uin * bool * san * option (str * bool))) (after_name : str) (after_protos : N)
   (** the code under test panicked on these input strings *)
 | CPanic (a b : str).
 
@@ -189,6 +196,25 @@ Definition agree (c : case) : bool :=
       end
     | _, _ => false
     end
+  | CSeq preset ups after_name after_protos =>
+    str_eqb after_name preset && (after_protos =? 0)
+    && forallb (fun u =>
+         let '(a, socks, cert, obs) := u in
+         negb (in_domain (uin_addr a)) ||
+         match nth_error (new_upstreams ip_literal [(uin_addr a, uin_dial a, socks)]) 0, obs with
+         | Some None, None => true
+         | Some (Some t), Some (sni, ok) =>
+           match effective_tls_name preset t with
+           | Some name =>
+             str_eqb sni (if ip_literal name then [] else strip_dots name)
+             && match t_transport t with
+                | TTls | THttps => Bool.eqb ok (san_matches name cert)
+                | _ => negb ok
+                end
+           | None => is_nil sni && ok
+           end
+         | _, _ => false
+         end) ups
   | CPanic _ _ => false
   end.
 
@@ -415,6 +441,35 @@ Definition spec (c : case) : bool :=
       | None, _ => true
       end
     end
+  | CSeq preset ups after_name after_protos =>
+    (* the caller's config is left as it was, and every upstream uses its own
+       URL host (or the caller's preset name) whatever was created before it *)
+    str_eqb after_name preset && (after_protos =? 0)
+    && forallb (fun u =>
+         let '(a, socks, cert, obs) := u in
+         match a with
+         | URaw _ _ => true
+         | UMean scheme e path dial eff_ip url_ip =>
+           match must_create scheme e path dial eff_ip socks, lookup_scheme scheme, obs with
+           | Some true, Some (tr, _), Some (sni, ok) =>
+             if is_nil preset then
+               match tr with
+               | TTls | THttps => spec_upper tr e url_ip cert sni ok
+               | TH3 | TQuic =>
+                 match url_ip with Some _ => is_nil sni | None => str_eqb sni (strip_dots (ep_host e)) end
+               | _ => is_nil sni && ok
+               end
+             else
+               str_eqb sni preset
+               && match tr with
+                  | TTls | THttps => Bool.eqb ok (match cert with SanName s => str_eqb s preset | _ => false end)
+                  | _ => true
+                  end
+           | Some false, _, None => true
+           | Some _, _, _ => false
+           | None, _, _ => true
+           end
+         end) ups
   | CPanic _ _ => false
   end.
 
@@ -433,5 +488,6 @@ Definition nontrivial (c : case) : bool :=
     in_domain (uin_addr a) &&
     (negb (is_nil (uin_dial a)) || v6ish (uin_addr a)
     || match a with UMean _ e _ _ _ _ => negb (is_some (ep_port e)) | _ => false end)
+  | CSeq _ ups _ _ => (2 <=? length ups)%nat
   | CPanic _ _ => true
   end.
